@@ -86,8 +86,7 @@ impl<T> RawTable<T> {
         if item.in_main {
             self.table.erase(item.bucket);
         } else if let Some(ref mut lo) = self.leftovers {
-            lo.items.reflect_remove(&item.bucket);
-            lo.table.erase(item.bucket);
+            lo.removing(&item.bucket.clone(), |table| table.erase(item.bucket));
         } else {
             unreachable!("invalid bucket state");
         }
@@ -99,8 +98,7 @@ impl<T> RawTable<T> {
         if item.in_main {
             self.table.remove(item.bucket).0
         } else if let Some(ref mut lo) = self.leftovers {
-            lo.items.reflect_remove(&item.bucket);
-            let (v, _) = lo.table.remove(item.bucket);
+            let (v, _) = lo.removing(&item.bucket.clone(), |table| table.remove(item.bucket));
 
             if lo.table.len() == 0 {
                 let _ = self.leftovers.take();
@@ -325,8 +323,9 @@ impl<T> RawTable<T> {
             // precede the removal. If `f` puts a value back, the bucket is exactly as it was,
             // and so the iterator can be too.
             let before = lo.items.clone();
-            lo.items.reflect_remove(&bucket.bucket);
-            let kept = lo.table.replace_bucket_with(bucket.bucket, f);
+            let kept = lo.removing(&bucket.bucket.clone(), |table| {
+                table.replace_bucket_with(bucket.bucket, f)
+            });
             if kept {
                 lo.items = before;
             }
@@ -618,6 +617,35 @@ struct OldTable<T> {
     // We cache an iterator over the old table's buckets so we don't need to do a linear search
     // across buckets we know are empty each time we want to move more items.
     items: raw::RawIter<T>,
+}
+
+impl<T> OldTable<T> {
+    /// Runs `remove`, which must take the element in `bucket` out of `self.table`, and keeps the
+    /// cached iterator in sync with that removal.
+    unsafe fn removing<X>(
+        &mut self,
+        bucket: &raw::Bucket<T>,
+        remove: impl FnOnce(&mut raw::RawTable<T>) -> X,
+    ) -> X {
+        if mem::size_of::<T>() == 0 {
+            // `reflect_remove` locates the bucket by comparing element addresses, which
+            // zero-sized elements do not have. Re-scan the table for what is left instead (a
+            // fresh iterator is always valid here, since moved elements have left the table),
+            // and do so on the way out, so that it also happens if `remove` unwinds.
+            struct Rescan<'a, T>(&'a mut OldTable<T>);
+            impl<T> Drop for Rescan<'_, T> {
+                fn drop(&mut self) {
+                    self.0.items = unsafe { self.0.table.iter() };
+                }
+            }
+            let this = Rescan(self);
+            remove(&mut this.0.table)
+        } else {
+            // NOTE: must be told _before_ the element is removed.
+            self.items.reflect_remove(bucket);
+            remove(&mut self.table)
+        }
+    }
 }
 
 /// Iterator which returns a raw pointer to every full bucket in the table.
